@@ -13,6 +13,7 @@
 //
 // additional request fields: "transport":"nats", "sizes":[len(data) per caller; 0 = 8 bytes],
 //   "share":[per caller: index of an earlier caller whose FContext (op id) it reuses, or -1],
+//   "badop":[per caller: 1 = its FContext carries a malformed _opid header],
 //   "reserve":k (the last k callers are started only after the transport has been closed),
 //   "profile": "mixed" | "wedge" | "timeouts" | "noresp" | "puberr" | "status"
 // additional event kinds / effects: see Judge/JRegistry.v.
@@ -90,7 +91,7 @@ func classifyNats(res thrift.TTransport, err error) int {
 		case frugal.TRANSPORT_EXCEPTION_NOT_OPEN:
 			return outNotOpen
 		case frugal.TRANSPORT_EXCEPTION_UNKNOWN:
-			if strings.Contains(err.Error(), "already registered") {
+			if strings.Contains(err.Error(), "already registered") || strings.Contains(err.Error(), "opid") {
 				return outRegErr
 			}
 		}
@@ -191,6 +192,10 @@ func runNats(q req) resp {
 			}
 			c.timeout = to
 			c.ctx.SetTimeout(time.Duration(to) * time.Millisecond)
+			if i < len(q.BadOp) && q.BadOp[i] != 0 {
+				// the _opid header is reserved but AddRequestHeader accepts it
+				c.ctx.AddRequestHeader("_opid", []string{"abc", "-5", "1.5", "", "18446744073709551616", " 7"}[rng.Intn(6)])
+			}
 		}
 		if i < len(q.Sizes) && q.Sizes[i] > 0 {
 			c.size = q.Sizes[i]
@@ -201,9 +206,14 @@ func runNats(q req) resp {
 		case c.size > natsMax:
 			c.dk = 2
 		}
-		c.opid, _ = frugal.VerifGetOpID(c.ctx)
+		var operr error
+		c.opid, operr = frugal.VerifGetOpID(c.ctx)
 		cs[i] = c
-		r.Opids = append(r.Opids, strconv.FormatUint(c.opid, 10))
+		if operr != nil {
+			r.Opids = append(r.Opids, "-1") // malformed: a negative op id in the model
+		} else {
+			r.Opids = append(r.Opids, strconv.FormatUint(c.opid, 10))
+		}
 		r.DataKinds = append(r.DataKinds, c.dk)
 	}
 	r.Elapsed = make([]int64, q.Callers)
